@@ -143,8 +143,8 @@ func BuildFromRecording(rec *MemoryRecorder, store factstore.ReadOnlyFactStore, 
 		rec:     rec,
 		store:   store,
 		opts:    opts,
-		cache:   make(map[uint64][]*ProofNode),
-		onStack: make(map[uint64]bool),
+		cache:   make(map[string][]*ProofNode),
+		onStack: make(map[string]bool),
 		ruleIDs: make(map[string]string),
 	}
 	proofs := b.build(goal, 0)
@@ -158,8 +158,8 @@ type builder struct {
 	rec     *MemoryRecorder
 	store   factstore.ReadOnlyFactStore
 	opts    Options
-	cache   map[uint64][]*ProofNode
-	onStack map[uint64]bool
+	cache   map[string][]*ProofNode
+	onStack map[string]bool
 	ruleIDs map[string]string // rule.String() -> rule content ID
 }
 
@@ -167,7 +167,8 @@ func (b *builder) build(goal ast.Atom, depth int) []*ProofNode {
 	if depth > b.opts.MaxDepth {
 		return []*ProofNode{{Fact: goal, Partial: true, ID: partialID(goal)}}
 	}
-	h := goal.Hash()
+	// Goals are told apart by their printed form: different atoms can have equal hashes.
+	h := goal.String()
 	if cached, ok := b.cache[h]; ok {
 		return cached
 	}
